@@ -40,6 +40,36 @@ pub fn c01(c: &mut Ctx, b: &Budget) {
         }
         c.end();
     }
+    // routes that end in the same information: a node's subject replaced by an obscured form of the WHOLE node (its digest is the
+    // node's, not the subject's); every element, decorated ones included, obscured in place with every action
+    for i in 0..(b.scenarios / 6).max(8) {
+        c.begin("routes");
+        let e = gen_env(c, &cfg, 2);
+        if let Some(env) = c.env(&e) {
+            if env.is_node() {
+                for form in ["elide", "compress"] {
+                    let f = c.assign(&format!("{} {}", form, e));
+                    let r = c.assign(&format!("replace_subject {} {}", e, f));
+                    if let Some(re) = c.env(&r) { observe_env(c, &r, false); let v = check_spec_digests(&re); c.check("spec-digest", v.is_ok(), "spec-digest", || format!("replace_subject(e, {}(e)): {} in {}", form, v.unwrap_err(), shape(&re))); }
+                }
+            }
+            let els = elements(&env);
+            for (k, (path, x)) in els.iter().enumerate() {
+                if k > 0 && k % 2 == i % 2 && !x.is_node() { continue; }
+                let t = c.assign(&format!("at {} {}", e, path));
+                for act in ["elide".to_string(), "compress".to_string(), format!("encrypt:{}", KEY1)] {
+                    let r = c.assign(&format!("elide_set {} rem {} {}", e, act, t));
+                    c.no_panic(&r, "obscuring");
+                    if let Some(re) = c.env(&r) {
+                        c.obs(&format!("digest {}", r));
+                        c.check("route-independent", re.digest() == env.digest(), "route-independent", || format!("{} of the element at {} changed the root digest: {} -> {}", act.split(':').next().unwrap(), path, shape(&env), shape(&re)));
+                        let v = check_spec_digests(&re); c.check("spec-digest", v.is_ok(), "spec-digest", || format!("{} in {}", v.unwrap_err(), shape(&re)));
+                    }
+                }
+            }
+        }
+        c.end();
+    }
     // the decoded route with the assertion elements of the encoding out of order, obscured ones included: the decoder may
     // refuse it (it does); if it ever accepts, what it returns must still carry specification digests and be the envelope
     // the API builds from the same parts
@@ -265,6 +295,24 @@ pub fn c02(c: &mut Ctx, b: &Budget) {
                         if let Some(bk) = back { if let Some(be) = c.env(&bk) { observe_env(c, &bk, false); let v = check_positions(&pe, &be); c.check("digests-preserved", v.is_ok() && be.is_identical_to(&pe), "digests-preserved", || format!("undoing {}: {} -> {}", op, shape(&pe), shape(&be))); } }
                     }
                 }
+            }
+        }
+        // assertions under the predicates the extensions use ('isA', 'signed', 'note', 'hasRecipient', 'sskrShare', 'salt', 'date',
+        // 'attachment', 'vendor', 'conformsTo', 'body', 'result', 'error' ...) already present when the subject is obscured: every
+        // one of them is still there afterwards
+        if i % 4 == 0 {
+            let mut e = gen_leaf(c, &cfg);
+            if i % 8 == 0 { e = c.assign(&format!("wrap {}", e)); }
+            let kvs = [1u64, 3, 4, 5, 6, 15, 16, 50, 51, 52, 100, 101, 102, 103, 13, 14];
+            for k in 0..c.rng.range(2, 5) { let kv = kvs[(i / 4 + k * 5) % kvs.len()]; let p = c.assign(&format!("kv {}", kv)); let o = gen_leaf(c, &cfg); let a = c.assign(&format!("assertion {} {}", p, o)); let n = c.assign(&format!("add {} {}", e, a)); if c.is_ok(&n) { e = n; } }
+            if let Some(orig) = c.env(&e) {
+                let n = hex::encode(c.rng.bytes(12));
+                for op in [format!("compress_subject {}", e), format!("encrypt_subject {} {} {}", e, KEY1, n), format!("compress {}", e), format!("elide {}", e)] {
+                    let r = c.assign(&op);
+                    c.no_panic(&r, "obscuring");
+                    if let Some(res) = c.env(&r) { observe_env(c, &r, false); let v = check_positions(&orig, &res); c.check("digests-preserved", v.is_ok(), "digests-preserved", || format!("{} with extension-predicate assertions present: {}: {} -> {}", op.split(' ').next().unwrap(), v.unwrap_err(), shape(&orig), shape(&res))); }
+                }
+                c.count("branch:extension-predicates-present");
             }
         }
         // twin assertions - one predicate and object, decorated differently (salted twice, bare and salted, bare and annotated): the
@@ -641,6 +689,60 @@ pub fn c07(c: &mut Ctx, b: &Budget) {
     unordered_collections(c, b);
     near_equal_digests(c, b);
     replace_subject_overlap(c, b);
+    big_nodes(c, b);
+}
+
+/// nodes with many assertions (around 16, 32, 64 - wherever a "small list" shortcut would end): present assertions re-added, in
+/// every form; removal; replacement by an equal-digest form; order independence
+fn big_nodes(c: &mut Ctx, b: &Budget) {
+    for n in (if b.thorough { vec![7usize, 8, 9, 15, 16, 17, 31, 32, 33, 64, 65, 130] } else { vec![15usize, 16, 17, 33, 65] }) {
+        c.begin("big-nodes");
+        let s = c.assign(&format!("leaf {}", hex::encode(CBOR::from("bigs").to_cbor_data())));
+        let asserts: Vec<String> = (0..n).map(|k| { let p = c.assign(&format!("leaf {}", hex::encode(CBOR::from(format!("p{}", k % 7).as_str()).to_cbor_data()))); let o = c.assign(&format!("leaf {}", hex::encode(CBOR::from(k as u64 * 37).to_cbor_data()))); c.assign(&format!("assertion {} {}", p, o)) }).collect();
+        let mut e = s.clone();
+        for a in &asserts { e = c.assign(&format!("add {} {}", e, a)); }
+        let mut order = asserts.clone(); c.rng.shuffle(&mut order);
+        let mut e2 = s.clone();
+        for a in &order { e2 = c.assign(&format!("add {} {}", e2, a)); }
+        c.obs(&format!("eq {} {}", e, e2));
+        let base = match c.env(&e) { Some(x) => x, None => { c.end(); continue; } };
+        if let Some(x2) = c.env(&e2) { c.check("order-independent", x2.is_identical_to(&base) && x2.tagged_cbor().to_cbor_data() == base.tagged_cbor().to_cbor_data(), "order-dependent", || format!("{} assertions in another order", n)); }
+        observe_env(c, &e, true);
+        roundtrip(c, &e);
+        // every present assertion re-added - as it is, elided, compressed - changes nothing; removed and re-added restores
+        for (k, a) in asserts.iter().enumerate() {
+            if n > 20 && k % 5 != 0 && k != n - 1 { continue; }
+            for form in ["", "elide", "compress"] {
+                let x = if form.is_empty() { a.clone() } else { c.assign(&format!("{} {}", form, a)) };
+                let r = c.assign(&format!("add {} {}", e, x));
+                if let Some(re) = c.env(&r) { c.check("add-present-noop", re.is_identical_to(&base) && re.assertions().len() == n, "add-present-changes", || format!("re-adding assertion {} ({}) of a node with {} assertions gave {} assertions", k, if form.is_empty() { "as it is" } else { form }, n, re.assertions().len())); }
+                c.obs(&format!("digest {}", r));
+            }
+            let rm = c.assign(&format!("remove {} {}", e, a));
+            let back = c.assign(&format!("add {} {}", rm, a));
+            c.obs(&format!("eq {} {}", e, back));
+            if let (Some(rme), Some(be)) = (c.env(&rm), c.env(&back)) { c.check("remove-restores", rme.assertions().len() == n - 1 && be.is_identical_to(&base), "remove-restores", || format!("remove / add of assertion {} in a node with {} assertions", k, n)); }
+            // replaced by an equal-digest form of itself: same digest, one element in that slot
+            let el = c.assign(&format!("elide {}", a));
+            let rp = c.assign(&format!("replace_assertion {} {} {}", e, a, el));
+            c.no_panic(&rp, "replace_assertion");
+            if let Some(rpe) = c.env(&rp) { c.check("replace-by-equal-digest", rpe.digest() == base.digest() && rpe.assertions().len() == n, "replace-by-equal-digest", || format!("replace_assertion(a, a.elide()) in a node with {} assertions gave {} assertions, digest preserved: {}", n, rpe.assertions().len(), rpe.digest() == base.digest())); }
+        }
+        let g = check_grammar(&base); c.check("grammar", g.is_ok(), "grammar", || g.unwrap_err());
+        c.end();
+    }
+    // the smallest node: its only assertion replaced by an equal-digest form / by itself
+    c.begin("big-nodes");
+    let s = c.assign("leaf 01"); let p = c.assign("leaf 6170"); let o = c.assign("leaf 616f"); let a = c.assign(&format!("assertion {} {}", p, o));
+    let e = c.assign(&format!("add {} {}", s, a));
+    for form in ["elide", "compress", ""] {
+        let x = if form.is_empty() { a.clone() } else { c.assign(&format!("{} {}", form, a)) };
+        let r = c.assign(&format!("replace_assertion {} {} {}", e, a, x));
+        c.no_panic(&r, "replace_assertion");
+        c.obs(&format!("digest {}", r));
+        if let (Some(re), Some(be)) = (c.env(&r), c.env(&e)) { c.check("replace-by-equal-digest", re.digest() == be.digest() && re.assertions().len() == 1, "replace-by-equal-digest", || format!("the only assertion replaced by its {} form: {}", if form.is_empty() { "own" } else { form }, shape(&re))); }
+    }
+    c.end();
 }
 
 /// `replace_subject` with a new subject that is a node already holding some of the receiver's assertions (or the receiver itself):
@@ -865,6 +967,24 @@ pub fn c06(c: &mut Ctx, b: &Budget) {
         let bs = CBOR::to_byte_string(item.clone()).to_cbor_data();
         let mut embedded = vec![0xd8, 0xc8, 0xd8, 0x18]; embedded.extend_from_slice(&bs);
         decode_case(c, "legacy-tag", "legacy-24-embedded-bytes", &embedded);
+    }
+    // tags that are a real element tag plus a multiple of 2^8, 2^16, 2^32 (what a narrowing conversion would fold onto it), on the
+    // outermost element and on inner ones
+    {
+        let inner_for = |t: u64| -> CBOR { match t { 200 => CBOR::to_tagged_value(201u64, "x"), 201 | 24 => CBOR::from("x"), 40002 | 40003 => CBOR::from(vec![CBOR::from(1)]), _ => CBOR::from(1) } };
+        for t in [200u64, 201, 24, 40000, 40001, 40002, 40003] {
+            for add in [1u64 << 8, 1 << 16, 1 << 24, 1 << 32, 1 << 33, 3 << 32, 1 << 48, 1 << 63] {
+                let alias = t.wrapping_add(add);
+                if [200u64, 201, 24, 40002, 40003].contains(&alias) { continue; }
+                let elem = CBOR::to_tagged_value(alias, inner_for(t));
+                decode_case(c, "tag-alias", "aliased-element-tag", &CBOR::to_tagged_value(200u64, elem.clone()).to_cbor_data());
+                // as the object of an assertion inside a node
+                let node = CBOR::from(vec![CBOR::to_tagged_value(201u64, "s"), CBOR::from({ let mut m = dcbor::Map::new(); m.insert(CBOR::to_tagged_value(201u64, "p"), elem.clone()); m })]);
+                decode_case(c, "tag-alias", "aliased-element-tag-nested", &CBOR::to_tagged_value(200u64, node).to_cbor_data());
+                // the outermost tag itself
+                decode_case(c, "tag-alias", "aliased-outer-tag", &CBOR::to_tagged_value(200u64.wrapping_add(add), CBOR::to_tagged_value(201u64, "x")).to_cbor_data());
+            }
+        }
     }
     // rejected inputs whose *content* is awkward to describe: an unknown tag (and the other refusals) around long texts with
     // multi-byte characters at every offset, long byte strings, deep arrays - whatever an error message might quote or measure
